@@ -107,6 +107,12 @@ class Prop(PropBase):
             else:
                 a, b = float(rng.randint(-2**52, 2**52)), rng.choice([0.5, -0.5, 1.0, 3.0, 1e-3, 2.0 ** -30, rng.uniform(-0.5, 0.5)])
             yield {"op": "eft", "a": hx(a), "b": hx(b)}
+        # results written into an existing Phase (in-place operators, out=), of either kind
+        for _ in range(300 if quick else 20000):
+            yield {"op": "outform", "form": rng.choice(["imul", "idiv", "mul_out", "div_out", "add_out", "sub_out", "neg_out", "abs_out"]),
+                   "a": [hx(float(rng.randint(-10**6, 10**6))), hx(rng.uniform(-0.5, 0.5))], "imag_a": rng.random() < 0.4,
+                   "f": hx(rng.choice([2.0, -3.0, 0.5, 7.0, -0.25])), "imag_f": rng.random() < 0.4, "imag_q": rng.random() < 0.5,
+                   "b": [hx(float(rng.randint(-1000, 1000))), hx(rng.uniform(-0.5, 0.5))]}
         ops = ["construct1", "construct2", "add", "radd", "sub", "rsub", "neg", "pos", "abs", "mul", "rmul", "div",
                "floordiv", "mod", "divmod", "trig"]
         kinds = ["pyint", "pyfloat", "npfloat64", "npfloat32", "npint64", "zerod", "nd", "list", "quantity", "phase", "imag"]
@@ -197,6 +203,37 @@ class Prop(PropBase):
                 s1, s2 = two_sum(a, b)
                 p1, p2 = two_product(a, b)
             return {"sum": [hx(float(s1)), hx(float(s2))], "prod": [hx(float(p1)), hx(float(p2))]}
+        if case["op"] == "outform":
+            a0, a1, f = unhx(case["a"][0]), unhx(case["a"][1]), unhx(case["f"])
+            b0, b1 = unhx(case["b"][0]), unhx(case["b"][1])
+            mk = lambda x, y, im: ph.Phase(1j * x, 1j * y) if im else ph.Phase(x, y)       # noqa: E731
+            p = mk(a0, a1, case["imag_a"])
+            q = mk(5.0, 0.125, case["imag_q"])
+            fac = 1j * f if case["imag_f"] else f
+            form = case["form"]
+            try:
+                if form == "imul":
+                    tgt = p
+                    p *= fac
+                    r = p
+                elif form == "idiv":
+                    tgt = p
+                    p /= fac
+                    r = p
+                elif form == "mul_out":
+                    tgt, r = q, np.multiply(p, fac, out=q)
+                elif form == "div_out":
+                    tgt, r = q, np.divide(p, fac, out=q)
+                elif form in ("add_out", "sub_out"):
+                    other = mk(b0, b1, case["imag_a"])
+                    tgt, r = q, (np.add if form == "add_out" else np.subtract)(p, other, out=q)
+                elif form == "neg_out":
+                    tgt, r = q, np.negative(p, out=q)
+                else:
+                    tgt, r = q, np.absolute(p, out=q)
+            except Exception as e:
+                return {"err": err_name(e)}
+            return {"same_object": bool(r is tgt), "type": type(r).__name__, "R": self._pair(r), "R_imag": bool(r.imaginary)}
         if case["op"] == "kernel":
             v1, v2 = np.float64(unhx(case["v1"])), np.float64(unhx(case["v2"]))
             f = None if case["f"] is None else np.float64(unhx(case["f"]))
@@ -308,6 +345,8 @@ class Prop(PropBase):
         return None
 
     def model_requests(self, case, code):
+        if case["op"] == "outform":
+            return []
         if case["op"] == "eft":
             return [f"c07 eft {case['a']} {case['b']}"]
         if case["op"] == "kernel":
@@ -336,6 +375,8 @@ class Prop(PropBase):
         return out
 
     def agree(self, case, code, model):
+        if case["op"] == "outform":
+            return True
         if case["op"] == "eft":
             # astropy's two_sum / two_product = the generic transliteration at hardware Float, bit for bit; the rational rn53
             # instance agrees and satisfies the error-free contracts exactly (x + y = a + b, x + y = a * b over Q)
@@ -394,6 +435,33 @@ class Prop(PropBase):
         return None
 
     def spec_violation(self, case, code):
+        if case["op"] == "outform":
+            form = case["form"]
+            A = F(unhx(case["a"][0])) + F(unhx(case["a"][1]))
+            B = F(unhx(case["b"][0])) + F(unhx(case["b"][1]))
+            f = F(unhx(case["f"]))
+            ia, i_f = case["imag_a"], case["imag_f"]
+            if form in ("imul", "mul_out"):
+                exact, imag = A * f * (-1 if (ia and i_f) else 1), ia != i_f
+            elif form in ("idiv", "div_out"):
+                # (i^a A) / (i^f f): a=0,f=1 -> -i A/f ; a=1,f=1 -> A/f ; a=1,f=0 -> i A/f
+                exact, imag = (A / f) * (-1 if (i_f and not ia) else 1), ia != i_f
+            elif form == "add_out":
+                exact, imag = A + B, ia
+            elif form == "sub_out":
+                exact, imag = A - B, ia
+            elif form == "neg_out":
+                exact, imag = -A, ia
+            else:
+                exact, imag = abs(A), False
+            if "err" in code:
+                return f"{form} into an existing Phase raised {code['err']}"
+            if code["type"] != "Phase" or not code["same_object"]:
+                return f"{form}: result is a {code['type']}, returned the target object: {code['same_object']}"
+            if code["R_imag"] != imag and exact != 0:
+                return (f"{form} (phase {'imaginary' if ia else 'real'}, factor {'imaginary' if i_f else 'real'}, target previously "
+                        f"{'imaginary' if case['imag_q'] else 'real'}): result flagged {'imaginary' if code['R_imag'] else 'real'}")
+            return self._check_pair(unhx(code["R"][0]), unhx(code["R"][1]), exact, f"Phase {form}")
         if case["op"] == "eft":
             a, b = F(unhx(case["a"])), F(unhx(case["b"]))
             s1, s2 = (F(unhx(h)) for h in code["sum"])
@@ -483,6 +551,8 @@ class Prop(PropBase):
         return case
 
     def tags(self, case, code):
+        if case["op"] == "outform":
+            return ["outform:" + case["form"]]
         if case["op"] == "eft":
             return ["eft"]
         if case["op"] == "kernel":
